@@ -4937,7 +4937,7 @@ void UniCompiler::emit_2vs(UniOpVR op, const Operand_& dst_, const Operand_& src
           return;
         }
 
-        if (op == UniOpVR::kExtractU64) {
+        if (op == UniOpVR::kExtractU64 && idx == 0) {
           cc->vmovq(dst.as<Gp>(), src.as<Vec>());
           return;
         }
